@@ -48,6 +48,24 @@ def body_factory(tier, seed):
         if tier == "quick":
             # validation in worker threads for a slice of the cases
             GD.run_cases(rep, cases[::7], "C01t", "C01", O.c01, async_modes=(True,), view="VC01")
+        # several frames on ONE endpoint through the real receive loop: the same id again, null / falsy ids,
+        # replies in between -- every CALL of the sequence must get exactly one reply
+        from harness import impl_dispatch as D
+        from harness.props import c18
+        hbp = g.route("Heartbeat", ("ret", {"current_time": "t"}))
+        seqs = [['[2,"same","Heartbeat",{}]'] * 4,
+                ['[2,null,"Heartbeat",{}]', '[2,null,"Heartbeat",{}]', '[2,0,"Heartbeat",{}]', '[2,false,"Heartbeat",{}]',
+                 '[2,"","Heartbeat",{}]', '[2,"","Heartbeat",{}]', '[2,0,"Nope",{}]'],
+                ['[2,"a","Heartbeat",{}]', '[2,"b","Nope",{}]', '[2,"a","Heartbeat",{}]', '[3,"a",{}]', '[2,"a","Heartbeat",{}]'],
+                ['[3,"r%d",{}]' % i for i in range(14)] + ['[2,"after-replies","Heartbeat",{}]']]
+        for version in ("1.6", "2.0.1"):
+            for frames in seqs:
+                seq, how = D.observe_loop(version, [hbp], frames, "closed", False)
+                rep.count(json.dumps([version, frames]))
+                for key, what in c18.oracle(frames, seq, how, "closed"):
+                    if key.startswith(("interleaved", "spurious", "end")):
+                        rep.violation("C01:sequence:" + key, what, {"kind": "loop", "version": version, "routes": [hbp], "frames": frames,
+                                                                  "recv_exception": "closed", "gate_held": False, "observation": seq, "ended": how})
         rep.sample({"version": cases[30][1], "frame": cases[30][3][:200] if isinstance(cases[30][3], str) else "bytes",
                     "stratum": cases[30][0]})
         rep.sample({"version": cases[-1][1], "frame": str(cases[-1][3])[:200], "stratum": cases[-1][0]})
